@@ -51,6 +51,9 @@ def g() -> Generator[tuple[int, str], tuple[int, str], tuple[int, str]]:
 '''
 
 PARENT_PATH = {"module": None, "class": "K", "function": "f", "init": "K.__init__", "property": "K.p", "tuplefn": "t", "genfn": "g"}
+# "aliasmod": a module in which every name the concretisers document (n0.., x, y) is imported from a package that is
+# not loaded: looking such a member up gives an alias that cannot be resolved
+ALIAS_SOURCE = '"""Module am."""\nfrom ext import ' + ", ".join([f"n{i}" for i in range(80)] + ["x", "y"]) + "\n"
 
 
 class Parents:
@@ -64,11 +67,14 @@ class Parents:
 
     def build(self):
         self.mod = self.griffe.visit("m", filepath=Path("m.py"), code=self.source)
+        self.amod = self.griffe.visit("am", filepath=Path("am.py"), code=ALIAS_SOURCE)
         self.baseline = self.project()
 
     def get(self, kind: str):
         if kind == "none":
             return None
+        if kind == "aliasmod":
+            return self.amod
         path = self.paths[kind]
         return self.mod if path is None else self.mod[path]
 
@@ -91,6 +97,8 @@ class Parents:
                     walk(m)
 
         walk(self.mod)
+        walk(self.amod)
+        out.append(tuple((n, m.target_path, m._target is None) for n, m in self.amod.members.items() if m.is_alias))
         return tuple(out)
 
     def changed(self) -> bool:
@@ -122,6 +130,49 @@ def guarded(fn, seconds: float = 5.0):
     finally:
         signal.setitimer(signal.ITIMER_REAL, 0)
         signal.signal(signal.SIGALRM, old)
+
+
+class StepLimit(Exception):
+    pass
+
+
+def step_bounded(fn, max_lines: int = 400_000):
+    """Run fn() counting executed lines (sys.settrace); deterministic, independent of the machine's load.
+
+    Returns (result, exception); exception is StepLimit when the budget is exhausted.  A parse of a docstring of a few
+    dozen lines executes a few thousand lines: exhausting the budget means the parser does not terminate."""
+    import sys  # noqa: PLC0415
+
+    count = [0]
+
+    def tracer(frame, event, arg):  # noqa: ARG001
+        if event == "line":
+            count[0] += 1
+            if count[0] > max_lines:
+                raise StepLimit
+        return tracer
+
+    old = sys.gettrace()
+    sys.settrace(tracer)
+    try:
+        return fn(), None
+    except StepLimit as exc:
+        return None, exc
+    except Exception as exc:  # noqa: BLE001
+        return None, exc
+    finally:
+        sys.settrace(old)
+
+
+def guarded_confirmed(fn, seconds: float = 5.0):
+    """guarded(), but a wall-clock timeout is only a tripwire (the machine may be busy): non-termination is confirmed
+    with a deterministic step budget before it is reported as Timeout."""
+    res, exc = guarded(fn, seconds)
+    if isinstance(exc, Timeout):
+        res, exc = step_bounded(fn)
+        if isinstance(exc, StepLimit):
+            exc = Timeout()
+    return res, exc
 
 
 def exc_frames(exc: BaseException) -> str:
@@ -248,7 +299,7 @@ def real_parse(griffe, parents: Parents, style: str, text: str, parent_kind: str
     d = griffe.Docstring(text, lineno=1, endlineno=1 + text.count("\n"), parent=parent)
     out = {"exc": None, "excobj": None, "frames": None, "sections": None, "modified": None, "unstable": d.value != text, "value": d.value}
     before = docstring_snapshot(d)
-    res, exc = guarded(lambda: d.parse(style, **options), timeout)
+    res, exc = guarded_confirmed(lambda: d.parse(style, **options), timeout)
     if exc is not None:
         out["exc"] = "Timeout" if isinstance(exc, Timeout) else type(exc).__name__
         out["frames"] = exc_frames(exc) if not isinstance(exc, Timeout) else "timeout"
